@@ -45,7 +45,7 @@
 using namespace amgcl;
 
 static void on_abort(int) {
-    const char m[] = "REPRODUCED on the real code: abort (libstdc++ assertion: std::vector subscript out of range)\n";
+    const char m[] = "REPRODUCED on the real code: abort (libstdc++ assertion: container subscript out of range or null smart-pointer dereference)\n";
     if (write(1, m, sizeof(m) - 1)) {}
     _exit(1);
 }
@@ -380,10 +380,52 @@ static int r_ilu0(const Witness &w) {
     FAIL("ilu0: zero pivot (d_11 = 1 - 1*1) not reported by an exception");
 }
 
+// ---------------------------------------------------------------------------------------------
+// 6. chebyshev::solve (the unit is inductive, there is no witness): the real smoother on a fixed SPD matrix for degree 0..5, with and
+// without diagonal scaling, against an independent evaluation of the documented recurrence
+static int r_chebyshev(const Witness &) {
+    const ptrdiff_t n = 4;
+    Crs A; A.set_size(n, n, true);
+    std::vector<ptrdiff_t> col; std::vector<double> val;
+    for (ptrdiff_t i = 0; i < n; ++i) {
+        if (i > 0) { col.push_back(i - 1); val.push_back(-1.0); }
+        col.push_back(i); val.push_back(3.0 + i);
+        if (i + 1 < n) { col.push_back(i + 1); val.push_back(-1.0); }
+        A.ptr[i + 1] = (ptrdiff_t)col.size();
+    }
+    A.set_nonzeros(col.size());
+    for (size_t j = 0; j < col.size(); ++j) { A.col[j] = col[j]; A.val[j] = val[j]; }
+    typedef relaxation::chebyshev<Backend> Cheb;
+    arm();
+    for (int scale = 0; scale < 2; ++scale) for (unsigned degree = 0; degree <= 5; ++degree) {
+        Cheb::params prm; prm.degree = degree; prm.scale = scale != 0;
+        Cheb S(A, prm, Backend::params());
+        backend::numa_vector<double> b(n), x(n), tmp(n);
+        std::vector<double> xe(n), p(n, 12345.0), r(n);
+        for (ptrdiff_t i = 0; i < n; ++i) { b[i] = 1.0 + i; x[i] = xe[i] = 0.5 - 0.25 * i; (*S.p)[i] = NAN; (*S.r)[i] = NAN; }   // stale workspace (whatever an earlier, possibly diverged, call left)
+        const double c = S.c, d = S.d;
+        double alpha = 0, beta = 0;
+        for (unsigned k = 0; k < degree; ++k) {
+            for (ptrdiff_t i = 0; i < n; ++i) { double s = b[i]; for (ptrdiff_t j = A.ptr[i]; j < A.ptr[i + 1]; ++j) s -= A.val[j] * xe[A.col[j]]; r[i] = s; }
+            if (scale) for (ptrdiff_t i = 0; i < n; ++i) r[i] = (*S.M)[i] * r[i];
+            if (k == 0) { alpha = 1.0 / d; beta = 0.0; }
+            else if (k == 1) { alpha = 2 * d / (2 * d * d - c * c); beta = alpha * d - 1.0; }
+            else { alpha = 1.0 / (d - 0.25 * alpha * c * c); beta = alpha * d - 1.0; }
+            for (ptrdiff_t i = 0; i < n; ++i) { p[i] = (k == 0) ? alpha * r[i] : alpha * r[i] + beta * p[i]; xe[i] += p[i]; }
+        }
+        S.apply_pre(A, b, x, tmp);
+        for (ptrdiff_t i = 0; i < n; ++i)
+            if (!(std::fabs(x[i] - xe[i]) <= 1e-12 * (1 + std::fabs(xe[i])))) FAIL("chebyshev::solve degree " << degree << (scale ? " scaled" : "") << ": x[" << i << "] = " << x[i] << " but the Chebyshev recurrence gives " << xe[i]);
+    }
+    std::cout << "chebyshev: degrees 0..5, scaled and unscaled, agree with the recurrence" << std::endl;
+    return 0;
+}
+
 int main(int argc, char **argv) {
     if (argc < 3) return 2;
     std::string unit = argv[1];
     Witness w;
+    if (unit == "chebyshev_solve") { w.load(std::string(argv[2]) + ".in"); return r_chebyshev(w); }
     if (!w.load(std::string(argv[2]) + ".in")) { std::cout << "no witness input" << std::endl; return 3; }
     if (unit == "skyline_lu_factorize_values3") return r_sky_values3(w);
     if (unit == "ilu_serial_solve") return r_ilu_serial_solve(w);
